@@ -48,6 +48,39 @@ def parser_keywords(facts):
     return kw
 
 
+def _fmt_arg_roots(fn, fl, locals_):
+    """`format_args!` packs its operands into one tuple `(&a, &b, ..)` and hands out `args.i`: follow a format argument back to
+    the i-th element of that tuple, so that the clamp of a sibling operand is not mistaken for this operand's"""
+    out = []
+    for l in locals_:
+        cur = l
+        for _ in range(6):
+            ds = [d for d in fl.defs.get(cur, ()) if d[0] == "stmt"]
+            if len(ds) != 1 or len(fl.defs.get(cur, ())) != 1:
+                break
+            rv = fn.blocks[ds[0][1]][0][ds[0][2]][2]
+            if rv[0] == "ref" and all(x == "*" for x in rv[2][1]):
+                cur = rv[2][0]
+                continue
+            if rv[0] == "use":
+                pl = FL.op_place(rv[1])
+                if pl and len(pl[1]) == 1 and isinstance(pl[1][0], list) and pl[1][0][0] == "f":
+                    td = [d for d in fl.defs.get(pl[0], ()) if d[0] == "stmt"]
+                    if len(td) == 1 and len(fl.defs.get(pl[0], ())) == 1:
+                        trv = fn.blocks[td[0][1]][0][td[0][2]][2]
+                        if trv[0] == "agg" and trv[1][0] == "tup" and pl[1][0][1] < len(trv[2]):
+                            ls = FL.op_locals(trv[2][pl[1][0][1]])
+                            if len(ls) == 1:
+                                cur = ls[0]
+                                continue
+                elif pl and not pl[1]:
+                    cur = pl[0]
+                    continue
+            break
+        out.append(cur)
+    return out
+
+
 def run(ctx):
     facts = ctx.facts
     ser = ctx.fn(SER, "anchor")
@@ -61,7 +94,7 @@ def run(ctx):
             if "fmt::rt::Argument" not in (c.get("p") or "") or not (p.endswith("::<f64>") or p.endswith("::<f32>")):
                 continue
             n += 1
-            calls = L.slice_calls(fn, FL.op_locals(a[0]))
+            calls = L.slice_calls(fn, _fmt_arg_roots(fn, fl, FL.op_locals(a[0])))
             ok = any(L.is_call_to(cc, ["finite_or_zero", "is_finite"]) for _, cc in calls)
             key = "%s:float-arg@%s" % (L.short(fn.id), "L%d" % (fn.line(b) - fn.lo))
             if ok:
